@@ -63,7 +63,7 @@ var castExpr = map[string]func(x constant.Constant, t types.Type) constant.Const
 	"fptosi": func(x constant.Constant, t types.Type) constant.Constant { return constant.NewFPToSI(x, t) }, "uitofp": func(x constant.Constant, t types.Type) constant.Constant { return constant.NewUIToFP(x, t) },
 	"sitofp": func(x constant.Constant, t types.Type) constant.Constant { return constant.NewSIToFP(x, t) }, "ptrtoint": func(x constant.Constant, t types.Type) constant.Constant { return constant.NewPtrToInt(x, t) },
 	"inttoptr": func(x constant.Constant, t types.Type) constant.Constant { return constant.NewIntToPtr(x, t) }, "bitcast": func(x constant.Constant, t types.Type) constant.Constant { return constant.NewBitCast(x, t) },
-	"": func(x constant.Constant, t types.Type) constant.Constant { return constant.NewBitCast(x, t) },
+	"":              func(x constant.Constant, t types.Type) constant.Constant { return constant.NewBitCast(x, t) },
 	"addrspacecast": func(x constant.Constant, t types.Type) constant.Constant { return constant.NewAddrSpaceCast(x, t) },
 }
 
